@@ -195,18 +195,23 @@ def run_layered(chk, repo, rule='R13.7'):
         model = 'layered world (core not tidal, mantle and crust tidal), obliquity tides ' + ('on' if obliq_on else 'off')
         for seq in seqs:
             nseq += 1
-            it = make_interp(repo)
             st0 = state_atoms('0', layer_names)
-            try:
+            final = dict(st0)
+
+            def history(fork, seq=seq, st0=st0, final=final):
+                it = make_interp(repo)
+                it.hooks['fork'] = fork
                 s = build(repo, it, st0, obliq_on, layer_names)
                 full_init(it, s, st0, layer_names)
-                final = dict(st0)
                 for i, mname in enumerate(seq):
                     key, fn_ = M[mname]
                     newv = X.atom(f'{key}_new{i + 1}', 'pos' if key[0] in 'eaT' else 'real')
                     fn_(it, s, newv)
                     final[key] = newv
-                got = exposed(s)
+                return exposed(s)
+            try:
+                from .c13 import explore_history
+                got, path_label = explore_history(history)
                 it2 = make_interp(repo)
                 sf = build(repo, it2, final, obliq_on, layer_names)
                 full_init(it2, sf, final, layer_names)
@@ -222,7 +227,7 @@ def run_layered(chk, repo, rule='R13.7'):
                 if not d.equal(a_, b_):
                     bad.append(f'{q.lstrip("_")} differs from a fresh world in the final state')
             inst = f'{model}: after {" ; ".join(seq)} every exposed quantity (global and per layer) equals that of a fresh world in the final state'
-            chk.ob(rule, inst, not bad, '; '.join(bad[:4]), mt.rel(), key=f'{rule}|{model}|{"+".join(seq)}', method='abstract object graph (stubbed model holders) + GF(p^2) PIT')
+            chk.ob(rule, inst, not bad, '; '.join(bad[:4]) + (path_label if bad else ''), mt.rel(), key=f'{rule}|{model}|{"+".join(seq)}', method='abstract object graph (stubbed model holders) + GF(p^2) PIT')
     chk.note_analysed('layered mutator sequences', nseq)
     return nseq
 
